@@ -153,7 +153,7 @@ def stablehlo_obligations(rep):
         cmp_kind = tg.kind_to_target[kind] is None
         arity = 3 if kind == "select" else (2 if (cmp_kind or kind in ("add", "subtract", "multiply", "divide", "logical_and", "logical_or", "logical_xor", "bitwise_left_shift", "bitwise_right_shift", "maximum", "minimum", "atan2", "complex", "nextafter")) else 1)
         for top_need in (True, False):
-            for opstate in itertools.product(("symbol", "shared-node", "inline-node", "constant"), repeat=arity):
+            for opstate in itertools.product(("symbol", "shared-node", "inline-node", "constant", "constant-like-shared", "constant-like-inline"), repeat=arity):
                 ncases += 1
                 ctx = fa.Context(paths=[])
                 with warnings.catch_warnings():
@@ -172,6 +172,9 @@ def stablehlo_obligations(rep):
                             ops.append(x)
                         elif stt == "constant":
                             ops.append(ctx.constant(1.5 + i, x))
+                        elif stt.startswith("constant-like"):
+                            # the reference (like) operand is a derived expression that has not been printed yet
+                            ops.append(ctx.constant(1.5 + i, ctx.real(zc)))  # real(z) survives normalize_like
                         else:
                             ops.append(ctx.negative(x))
                     top = Expr(ctx, kind, tuple(ops))
@@ -181,7 +184,12 @@ def stablehlo_obligations(rep):
                         need[o.ref] = stt == "shared-node"
                         for oo in o.operands:
                             if hasattr(oo, "ref"):
-                                need.setdefault(oo.ref, False)
+                                need.setdefault(oo.ref, stt == "constant-like-shared" and oo.kind != "symbol")
+                    # consistency with compute_need_ref: a reference operand shared by two constants is needed
+                    likes = [o.operands[1] for o in ops if o.kind == "constant" and o.operands[1].kind != "symbol"]
+                    for lk in likes:
+                        if sum(1 for q in likes if q is lk) >= 2:
+                            need[lk.ref] = True
                     pr = tg.Printer(need, debug=0)
                     for a in list(args) + [zc]:
                         pr.defined_refs.add(a.ref)
@@ -214,6 +222,13 @@ def stablehlo_obligations(rep):
                             if o.kind == "symbol":
                                 if ta != ("ref", o.ref):
                                     problem = "operand %r printed as %r" % (o.ref, ta)
+                            elif o.kind == "constant" and stt.startswith("constant-like"):
+                                if ta[0] != "dag" or not ta[1].startswith("StableHLO_ConstantLike") or len(ta[3]) != 1:
+                                    problem = "constant printed as %r" % (ta,)
+                                # a `$ref` operand must have been bound earlier (checked by the binding order below); an inline
+                                # like must be the abs node
+                                elif ta[3][0][0] == "dag" and ta[3][0][1] != "StableHLO_RealOp":
+                                    problem = "constant's reference operand printed as %r" % (ta[3][0],)
                             elif o.kind == "constant":
                                 if ta[0] != "dag" or not ta[1].startswith("StableHLO_ConstantLike") or len(ta[3]) != 1 or ta[3][0][0] != "ref" or ta[3][0][1] not in pr.defined_refs:
                                     problem = "constant printed as %r (like must be a defined reference)" % (ta,)
@@ -309,7 +324,18 @@ def build(tier):
         "induction over the graph from the per-kind parse-back contract is an argument, not mechanised; the apply/Pat<> wrapper and the alternative constant context of the XLA client target are not under contract",
     )
     rep.extraction_drops.append("nothing: real printers on real nodes; output parsed back")
-    for f in (stablehlo_obligations, xla_obligations):
+    def xla_composition(rep):
+        from vf.contracts.C05 import composition_obligations
+
+        sub = core.Report("C05", tier)
+        composition_obligations(sub, targets=("xla_client", "cpp"))
+        for o in sub.obls:
+            o.id = o.id.replace("C05/O6/", "C06/O4/")
+            o.prop = PROP
+            o.functions = ("targets.xla_client.kind_to_target",)
+            rep.add(o)
+
+    for f in (stablehlo_obligations, xla_obligations, xla_composition):
         try:
             f(rep)
         except Exception:
